@@ -95,6 +95,8 @@ Print Assumptions C08_termination_instance.
    its function - evaluated on every AST the implementation parses by the correspondence run), every document, every oracle
    and every fuel, the evaluation of the file answers no `Panic p`, the site guarded by an invariant of the value excepted. *)
 From GV.Proofs Require Import PanicPure PanicProps.
+From GV.Model Require Import ValueParse FullParse.
+From GV.Proofs Require Import FullParseProps.
 Theorem C08_no_panic_site_is_reached : forall re conv prog, pwf_prog prog = true ->
   forall fuel doc p, eval_file re conv prog fuel doc = Panic p -> p = P_map_key_missing.
 Proof. exact eval_file_no_panic. Qed.
@@ -137,3 +139,12 @@ Print Assumptions C08_evaluation_never_panics.
 Theorem C08_values_stay_key_consistent : forall re conv prog, vwf_prog prog = true -> forall n, ev_safe (evalN re conv prog n).
 Proof. exact evalN_safe. Qed.
 Print Assumptions C08_values_stay_key_consistent.
+
+(* ---- the whole-grammar parser (Model/FullParse.v = parser.rs rules_file, tied on whole files) ---- *)
+
+(* a rules file is accepted only when it was consumed to the last byte: a part that does not conform to the grammar, anywhere in the
+   file, makes the whole file a parse error *)
+Theorem C08_accepted_file_is_consumed_entirely : forall rv name s t, rules_file rv name s = FOk t ->
+  exists es n, exprs_loop rv n n [] (skip_ws_comments s) = POk es EmptyString.
+Proof. exact accepted_file_is_consumed_entirely. Qed.
+Print Assumptions C08_accepted_file_is_consumed_entirely.
